@@ -248,6 +248,7 @@ def lockstep(ctx, report, rule, facts, config):
     allowed = {}  # (body key, table, level) -> op
     found = {}
     n_mut = 0
+    helper_cone = facts.cone([add_stage, add_group, insert], stop=lambda x: x.qname == A.SB + "::insertion_target")
     for b in sorted(facts.bodies.values(), key=lambda b: b.key):
         bt = prog.bt(b)
         for bb, t in b.normal_calls():
@@ -288,28 +289,58 @@ def lockstep(ctx, report, rule, facts, config):
                 elif b.key == insert.key and level == 2 and ((tab in ("ids", "stages") and c.name == "push") or (tab in ("reads", "writes") and c.name == "extend")):
                     ok = True
                     found.setdefault(("insert", tab), []).append(bb)
+                if not ok and b.key in helper_cone and not b.raw.get("pub") and b.key not in (add_stage.key, add_group.key, insert.key):
+                    # a private helper of the three constructors: what it appends is counted where the constructor is evaluated
+                    ok = True
+                    found.setdefault(("helper", tab), []).append(bb)
                 report.ob(rule, inst, ok, "shape of the lock-step table `%s` (level %d) changed by `%s` in %s" % (tab, level, c.name, b.qname) if not ok
                           else "constructor append", site=b.loc(bb), config=config)
     report.touched(add_stage, config)
     report.touched(add_group, config)
+    from . import semq as Q
     for ctor, body_ in (("add_stage", add_stage), ("add_group", add_group)):
-        cfg = prog.bt(body_).cfg
+        ev, ends = Q.sem(ctx, facts, body_)
+        rets = [e for e in ends if e.kind == "return"]
         for tab in TABLES:
-            bbs = found.get((ctor, tab), [])
-            cnt = cfg.count(lambda x, bbs=bbs: x in bbs) if bbs else (0, 0)
-            report.ob(rule, "%s/%s" % (ctor, tab), cnt == (1, 1),
-                      "%s appends to `%s` min %s / max %s time(s) per call (expected exactly 1)" % (ctor, tab, cnt[0], cnt[1]),
-                      site=body_.loc(bbs[0]) if bbs else body_.loc(), config=config)
-    # add_group(stage): every append goes to table[stage] with the stage parameter
-    bt = prog.bt(add_group)
-    for bb, t in add_group.normal_calls():
-        c = Callee(t["func"])
-        if c.name == "push" and not c.local:
-            fields, idx, base = table_access(add_group, bt.call_args(bb)[0])
-            cf = crate_fields(fields)
-            if cf and cf[0][0] == A.SB:
-                report.ob(rule, "add_group/index/%s" % cf[0][1], idx == [("param", 2)],
-                          "add_group appends to %s[%s] (expected the `stage` parameter)" % (cf[0][1], idx), site=add_group.loc(bb), config=config)
+            cnts = set()
+            idx_ok = True
+            for e in rets:
+                n = 0
+                stack = list(e.path.events)
+                looped = False
+                for x in stack:
+                    if x[0] == "loop":
+                        looped = True
+                    if x[0] != "call" or x[2].local or x[2].name not in SHAPE_MUTATORS or not x[3]:
+                        continue
+                    fields, idx, base = Q.table_access(ev, x[3][0])
+                    cf = Q.crate_fields(fields)
+                    if not cf or base != ("param", 1):
+                        continue
+                    hit = None
+                    if cf[0] == (A.SB, tab) and len(cf) == 1:
+                        hit = idx
+                    elif tab == "stages" and cf == [(A.SB, "stages"), (A.STAGE, "groups")]:
+                        hit = idx
+                    if hit is None:
+                        continue
+                    if x[2].name != "push":
+                        n += 100
+                        continue
+                    if ctor == "add_stage" and cf == [(A.SB, tab)] and not hit:
+                        n += 1
+                    elif ctor == "add_group" and ((cf == [(A.SB, tab)] and tab != "stages") or cf == [(A.SB, "stages"), (A.STAGE, "groups")]) and len(hit) == 1:
+                        n += 1
+                        if Q.strip(ev, hit[0]) != ("param", 2):
+                            idx_ok = False
+                    else:
+                        n += 100
+                cnts.add(n + (100 if looped else 0))
+            report.ob(rule, "%s/%s" % (ctor, tab), cnts == set([1]),
+                      "%s appends to `%s` %s time(s) per call (expected exactly 1 on every path)" % (ctor, tab, sorted(cnts)), site=body_.loc(), config=config)
+            if ctor == "add_group":
+                report.ob(rule, "add_group/index/%s" % tab, idx_ok, "add_group appends to %s[stage] with the `stage` parameter" % tab if idx_ok else
+                          "add_group appends to %s at another index than the `stage` parameter" % tab, site=body_.loc(), config=config)
     report.floor(rule, "shape-changing calls on lock-step tables", n_mut, 14, config=config)
     # moves out of the tables: only StagesBuilder::build may move `stages` out
     n_moves = 0
